@@ -83,6 +83,18 @@ def p2p3(chk, prog, lens):
     # the conversion must be the same in every build: a counter or pointer that is advanced inside assert() stands
     # still when the unit is compiled with -DNDEBUG (the analysis itself sees the -UNDEBUG expansion)
     from ..rules import assert_side_effects
+    # ... and for every caller: the conversion functions are pure functions of their arguments - a function-local
+    # static that is not const (a scratch buffer, a cache) is shared by all callers and all threads, and the text
+    # returned to one caller can hold the digits of another
+    for f in prog.functions:
+        if '/format/detail/' in f.file and f.body is not None:
+            for x in f.walk():
+                for d in (x.get('decls', []) if x.get('k') == 'DeclStmt' else []):
+                    if d.get('static') and not (d.get('t') or '').startswith('const ') and \
+                            ' const' not in (d.get('t') or ''):
+                        chk.check(False, 'P2', f.name, 'the conversion keeps no state between calls (no non-const '
+                                  'function-local static)', f.loc(x), 'static %s %s is shared by all callers: the '
+                                  'result is not a function of the argument alone' % (d.get('t'), d.get('name')))
     for f in prog.functions:
         if '/format/detail/' in f.file and f.body is not None:
             for y in assert_side_effects(f):
